@@ -50,6 +50,8 @@ Proof.
   induction l as [|x l IH]; cbn [filter]; [reflexivity|].
   destruct (f x) eqn:F, (g x) eqn:Gx; cbn [filter]; rewrite ?F, ?Gx, IH; reflexivity.
 Qed.
+Lemma firstn_In {A} n (l : list A) x : In x (firstn n l) -> In x l.
+Proof. intro H. rewrite <- (firstn_skipn n l). apply in_or_app. now left. Qed.
 Lemma NoDup_filter {A} (f : A -> bool) l : NoDup l -> NoDup (filter f l).
 Proof.
   induction 1 as [|x l Hx Hl IH]; cbn [filter]; [constructor|].
@@ -324,7 +326,7 @@ Section Retention.
     apply filter_all. intros x Hx. apply filter_In in Hx. destruct Hx as [_ Hx].
     apply negb_true_iff, bmem_not_In. intro Hd.
     assert (In x (ckpts_of readdir pid (dir_write d n (encode s)))).
-    { eapply Permutation_in; [apply sort_by_perm|]. eapply firstn_In_incl. exact Hd. }
+    { eapply Permutation_in; [apply sort_by_perm|]. eapply firstn_In. exact Hd. }
     unfold ckpts_of in H. apply filter_In in H. destruct H as [_ H].
     apply Hp. eapply owner_unique; eassumption.
   Qed.
@@ -416,3 +418,37 @@ Section Retention.
       rewrite Hs. cbn [snd]. rewrite (ret_count _ _ _ _ HR). lia.
   Qed.
 End Retention.
+
+(* ------------------------------------------------------------------ load (save s) = s *)
+Section SaveLoad.
+  Variable readdir : dir -> list name.
+  Hypothesis readdir_perm : forall d, Permutation (readdir d) (dir_names d).
+  Variable H : bytes -> bytes.
+  Variable avail : Z.
+  Hypothesis Hav : ckpt_limit <= avail.
+
+  Theorem save_load_roundtrip max d s :
+    let n := ckpt_name (pipeline_id s) (timestamp s) in
+    dir_ok d -> wf_state s -> claim_total s <= ckpt_limit -> name_ok n = true ->
+    checksum s = compute_checksum H (meta_str s) ->
+    match max with Some m => 0 <= m | None => True end ->
+    exists d', save readdir max d s = (Ok n, d')
+               /\ (load H avail d' n = Ok s \/ dir_lookup d' n = None)
+               /\ (max = None -> load H avail d' n = Ok s).
+  Proof.
+    intros n Hok Hwf Hsz Hname Hck Hmax.
+    assert (Hload : load_bytes H avail (encode s) = Ok s).
+    { rewrite <- (app_nil_r (encode s)). now apply load_bytes_roundtrip. }
+    destruct max as [m|].
+    - assert (Hts : is_u64 (timestamp s)) by (unfold wf_state in Hwf; tauto).
+      destruct (save_retention readdir readdir_perm m d s Hok Hmax Hts Hname) as (d' & Hs & _ & HR & _).
+      exists d'. split; [exact Hs|]. split; [|discriminate].
+      unfold load. destruct (dir_lookup d' n) as [b|] eqn:E; [left|now right].
+      apply (ret_sub _ _ _ _ HR) in E. fold n in E. rewrite lookup_write, bytes_eqb_refl in E.
+      inversion E; subst. exact Hload.
+    - exists (dir_write d n (encode s)). split; [now apply save_no_retention|].
+      assert (load H avail (dir_write d n (encode s)) n = Ok s).
+      { unfold load. now rewrite lookup_write, bytes_eqb_refl. }
+      auto.
+  Qed.
+End SaveLoad.
